@@ -13,6 +13,9 @@ PROP = {
          "why": _WHY % "store reading a foreign / older-shape document (golden files, missing / null / unknown members) and writing it again"},
         {"harness": "h_pure", "comp": "pre041", "n_quick": 2000, "n_thorough": 20000,
          "why": _WHY % "pre-0.4.1 connector migration at NewStore (new key, new document, loaded instance)"},
+        {"harness": "h_pure", "comp": "oldstore", "n_quick": 1500, "n_thorough": 15000,
+         "why": _WHY % "pre-0.4.1 migration of a whole store at NewStore (1-4 old-format connectors of different plugins / setting key sets, "
+                       "some lacking optional members, next to current-format records): every record of the database afterwards, and GetAll"},
         {"harness": "h_pure", "comp": "resume", "n_quick": 1500, "n_thorough": 15000,
          "why": _WHY % "restart status logic (pipeline.Service.Init + lifecycle.Service.Init v1/v2 on stored pipelines)"},
     ],
@@ -24,6 +27,9 @@ PROP = {
             "written by the real store and read by a new store on the same DB; compared: the stored bytes (hex) and the instance read back; non-trivial = read back identical and line > 120 chars. "
             "golden: the repo's golden documents + generated documents in older / foreign shapes; non-trivial = decodes. "
             "pre041: generated old-format documents (fixture of TestStore_MigratePre041 in the corpus); non-trivial = migrated and loaded. "
+            "oldstore: 1..4 old-format connector records (settings mostly drawn from per-plugin key sets file/postgres/kafka/generator/s3/none so that neighbours differ; "
+            "XState / ProcessorIDs / Settings / Plugin / PipelineID / Name / timestamps independently absent; occasionally perturbed or of unknown type) + 0..2 current-format records, "
+            "all IDs distinct, shuffled; compared: every database record after NewStore (sorted by key, as trees) and GetAll; non-trivial = >= 2 records under the connector prefix afterwards, one of them migrated. "
             "resume: 0..5 stored pipelines with generated statuses; non-trivial = something is started and all other fields unchanged. distinct = distinct case lines",
     "strength": "full: base64 (all byte strings), JSON strings (all Unicode scalar sequences, also at UTF-8 String level), printer/parser (all JSON trees), "
                 "the three entity documents at stored-text level (all field values; maps in canonical order, timestamps valid calendar times with whole-minute zone), "
@@ -36,6 +42,7 @@ PROP = {
         "connector State holds nil, SourceState or DestinationState matching the connector Type (invariant of the running system; mismatches are still compared model-vs-code)",
         "stored documents have no duplicate member names and member names are spelt exactly as the Go fields (goccy also matches case-insensitively; the stores never write that)",
         "the key-value database returns the bytes it was given (inmemory DB in the harness)",
+        "old-format records of one store have distinct XIDs, also distinct from the IDs of current records (equal IDs would overwrite each other in GetKeys order, which the in-memory DB leaves unspecified)",
     ],
 }
 
@@ -45,7 +52,7 @@ META = {
             "(C17_json_print_parse); for connector, pipeline and processor instances: the stored text read back by the model of the store's decode is the instance, for every value of every field, "
             "nil vs empty preserved (C17_connector/pipeline/processor_roundtrip, C17_store_injective and corollaries), including the untyped re-decode of connector State; member order of a document is irrelevant "
             "(C17_member_order_irrelevant), every Go map has a canonical form (C17_every_map_has_canonical_form), store key spaces are disjoint (C17_store_keys); the pre-0.4.1 migration carries every field "
-            "(C17_pre041_migration_preserves) and a document older than LastActiveConfig is understood; a pipeline stored Running is loaded SystemStopped and is started by lifecycle Init, UserStopped/Degraded "
+            "(C17_pre041_migration_preserves), the migration of a whole store is a per-record map — each old record decoded on its own into a fresh target (regenerated fact), other records untouched, a second restart a no-op (C17_pre041_store_independent, _store_migrates_each, _store_leaves_current_untouched, _store_idempotent) — and a document older than LastActiveConfig is understood; a pipeline stored Running is loaded SystemStopped and is started by lifecycle Init, UserStopped/Degraded "
             "are not, nothing else changes (C17_restart_loads_all, C17_running_resumed, C17_stopped_not_resumed, C17_init_changes_only_status). "
             "The model is tied to the code by regenerated facts (struct members and types, PrepareSet whitelist, decode switch, status constants and Init guards, key prefixes, JSON package) and by "
             "differential runs of the real stores / services on an in-memory DB against the compiled model: stored bytes and read-back instances must be identical.",
